@@ -237,9 +237,10 @@ def execute(case):
     return lines
 
 
-def conv_lines():
+def conv_lines(extra_scores=()):
     out = []
-    srcs = list(CONTENTS) + [OTHER, OVERWRITE,
+    from harness.common import score_abs
+    srcs = [score_abs(sc) for sc in extra_scores] + list(CONTENTS) + [OTHER, OVERWRITE,
                              [P.internal(9)], [P.ts(0, 4, 4), P.internal(5)],
                              P.notes_to_abs([(0, 60, 3, 5, 80)], dur=5),
                              P.notes_to_abs([(0, 60, 3, 5, 80), (1, 60, 5, 9, 70)], [P.ks(5, "A"), P.ts(5, 2, 4)], dur=40)]
@@ -259,6 +260,7 @@ def conv_lines():
     return out
 
 
+CONV_SCORES = []
 FINDING_ITER = "C04.iter.edit-after-reading-other-view-in-same-turn"
 
 
@@ -308,7 +310,7 @@ def run_streamed(ctx, cases):
         res = pmap(execute, cases[b0:b0 + B], chunk=100)
         obs = [ln for lines in res for ln in lines]
         if b0 == 0:
-            cl = conv_lines()
+            cl = conv_lines(CONV_SCORES)
             for i, x in enumerate(cl):
                 x["grp"] = f"conv{i}"
             obs.extend(cl)
@@ -352,6 +354,9 @@ def run(ctx):
         if "Invariant InvReadable is violated" not in d.out:
             raise core.MachineryError("self-test: defect switch OverwriteKeepsStale no longer violates InvReadable")
         g = ctx.generate("Gen_SeqViews", "Gen_SeqViews.cfg")[0]
+        # conversion clause: every score the SimpleOps generator writes (notes on two channels, extras, trailing rests)
+        global CONV_SCORES
+        CONV_SCORES = ctx.generate("Gen_SimpleOps", "Gen_SimpleOps.cfg", env={"VERIF_TIER": "quick"})[0]["scores"]
         edges = g["edges"]
         scripts = {x["op"]: x["script"] for x in g["scripts"]}
         mutating = set(g["mutating"])
@@ -398,7 +403,7 @@ def run(ctx):
             return run_streamed(ctx, cases)
         res = pmap(execute, cases, chunk=100)
         obs = [ln for lines in res for ln in lines]
-        cl = conv_lines()
+        cl = conv_lines(CONV_SCORES)
         for i, x in enumerate(cl):
             x["grp"] = f"conv{i}"
         obs.extend(cl)
